@@ -81,6 +81,10 @@ var AnnotationValues = []string{
 	`multi word annotation with many words so that it can be folded across lines nicely`,
 	`température élevée sur {{ $labels.instance }} — vérifiez`,
 	`日本語 の 説明 {{ $value }}`,
+	"first line\nsecond line for {{ $labels.job }}",
+	"tab\tseparated\tvalue {{ $value }}",
+	"nbsp\u00a0and nel\u0085inside",
+	"bell\x07 esc\x1b[0m sep\u2028end",
 }
 
 // Model -----------------------------------------------------------------------
@@ -217,6 +221,17 @@ func breakPoints(v string) []int {
 	return out
 }
 
+// needsDQ: the value holds a character only a double-quoted scalar can spell (control characters, the
+// Unicode line breaks, NBSP - the latter to exercise its escape).
+func needsDQ(v string) bool {
+	for _, r := range v {
+		if r < 0x20 || r == 0x7f || r == 0x85 || r == 0xa0 || r == 0x2028 || r == 0x2029 {
+			return true
+		}
+	}
+	return false
+}
+
 func plainSafe(v string) bool {
 	if v == "" || strings.TrimSpace(v) != v {
 		return false
@@ -277,7 +292,7 @@ func (s *Styler) Value(v string, kind string) *Node {
 	}
 	var names []string
 	for _, c := range choices {
-		if c.ok {
+		if c.ok && (!needsDQ(v) || strings.HasPrefix(c.name, "double")) {
 			names = append(names, c.name)
 		}
 	}
@@ -348,6 +363,9 @@ func (s *Styler) Value(v string, kind string) *Node {
 		n.Lines = addBlank(split(4))
 	case "double-multi":
 		n.Style = DoubleQ
+		if o.DQEscapes && rapid.IntRange(0, 2).Draw(t, s.lbl("escm")) == 0 {
+			s.dqEscapes(n, v)
+		}
 		if bs := rapid.IntRange(0, 3).Draw(t, s.lbl("bscont")); bs == 0 {
 			// escaped line breaks: no blank lines in this form
 			n.Lines = split(4)
@@ -464,23 +482,45 @@ func (s *Styler) Value(v string, kind string) *Node {
 }
 
 func (s *Styler) dqEscapes(n *Node, v string) {
-	// choose a spellable character of the value and write it as an escape
-	esc := map[string]string{}
-	cands := []string{}
-	for _, c := range []string{" ", "(", "a", "o", "0", "{", "=", "/"} {
-		if strings.Contains(v, c) {
-			cands = append(cands, c)
+	// choose up to three characters of the value and write each as an escape sequence: \xHH, \uHHHH,
+	// \UHHHHHHHH or, where YAML has one, the named form
+	named := map[rune]string{' ': `\ `, '/': `\/`, '\t': "\\\t", 0: `\0`, 7: `\a`, 8: `\b`, 0xb: `\v`, 0xc: `\f`, 0xd: `\r`, 0x1b: `\e`,
+		0x85: `\N`, 0xa0: `\_`, 0x2028: `\L`, 0x2029: `\P`}
+	seen := map[rune]bool{}
+	var cands []rune
+	for _, r := range v {
+		if r == '"' || r == '\\' || r == '\n' || r == 0xfffd || seen[r] {
+			continue
 		}
+		seen[r] = true
+		cands = append(cands, r)
 	}
 	if len(cands) == 0 {
 		return
 	}
-	c := rapid.SampledFrom(cands).Draw(s.T, s.lbl("escc"))
-	form := rapid.SampledFrom([]string{"x", "u"}).Draw(s.T, s.lbl("escf"))
-	if form == "x" {
-		esc[c] = fmt.Sprintf(`\x%02x`, c[0])
-	} else {
-		esc[c] = fmt.Sprintf(`\u%04x`, c[0])
+	esc := map[string]string{}
+	for i, k := 0, rapid.IntRange(1, 3).Draw(s.T, s.lbl("escn")); i < k; i++ {
+		r := rapid.SampledFrom(cands).Draw(s.T, s.lbl("escc"))
+		forms := []string{"U"}
+		if r < 0x100 {
+			forms = append(forms, "x", "x")
+		}
+		if r < 0x10000 {
+			forms = append(forms, "u", "u")
+		}
+		if _, ok := named[r]; ok {
+			forms = append(forms, "named", "named")
+		}
+		switch rapid.SampledFrom(forms).Draw(s.T, s.lbl("escf")) {
+		case "x":
+			esc[string(r)] = fmt.Sprintf(`\x%02x`, r)
+		case "u":
+			esc[string(r)] = fmt.Sprintf(`\u%04X`, r)
+		case "U":
+			esc[string(r)] = fmt.Sprintf(`\U%08x`, r)
+		default:
+			esc[string(r)] = named[r]
+		}
 	}
 	n.Escapes = esc
 	s.Used["dq-escape"]++
@@ -527,6 +567,8 @@ func (s *Styler) strMap(kvs [][2]string) *Node {
 		for _, kv := range kvs {
 			var v *Node
 			switch {
+			case needsDQ(kv[1]):
+				v = DQ(kv[1])
 			case flowSafe(kv[1]) && rapid.Bool().Draw(s.T, s.lbl("fp")):
 				v = P(kv[1])
 			case rapid.Bool().Draw(s.T, s.lbl("fq")):
